@@ -613,14 +613,23 @@ class Model:
 class TreeDef:
     """Model tree definition: 'args' -> tuple of leaves, 'kwargs' -> (tuple(leaves[:-1]), {'kw': leaves[-1]}), 'single' -> the bare leaf,
     'out' -> the bare leaf for one leaf, else a tuple."""
-    def __init__(self, kind):
+    def __init__(self, kind, template=None):
         self.kind = kind
+        self.template = template      # kind 'tmpl': a nested tuple/list/dict whose int leaves index the flat leaves
 
     def __repr__(self):
-        return f"treedef<{self.kind}>"
+        return f"treedef<{self.kind}>" if self.template is None else f"treedef<{self.template!r}>"
 
     def unflatten(self, leaves):
         leaves = list(leaves)
+        if self.kind == "tmpl":
+            def build(t):
+                if isinstance(t, dict):
+                    return {k: build(v) for k, v in t.items()}
+                if isinstance(t, (list, tuple)):
+                    return type(t)(build(v) for v in t)
+                return leaves[t]
+            return build(self.template)
         if self.kind == "args":
             return tuple(leaves)
         if self.kind == "args_none":     # the call f(None, leaf0, leaf1): a positional placeholder with no leaves
